@@ -182,6 +182,9 @@ func CaseLabels(c *Case, v *VResult) map[string]bool {
 				if p.Name != "" {
 					l["has-named-param"] = true
 				}
+				if p.SlT != "" {
+					l["has-named-slice-type"] = true
+				}
 				if p.Group != "" {
 					l["has-group-param"] = true
 					if p.Soft {
